@@ -155,8 +155,9 @@ def r01_4(ctx, repo):
         ctx.error(rule, '%s: n_observations idiom not recognised (%s)' % (
             construct, U(d[0].value) if d else 'no assignment'))
     g = repo.method(CLS, 'n_observations')
-    if any(isinstance(r, ast.Return) and U(r.value) == 'self._n_obs'
-           for r in ast.walk(g)):
+    from ..loader import returned_expr
+    if any(isinstance(r, ast.Return) and r.value is not None and U(
+            returned_expr(g, r)) == 'self._n_obs' for r in ast.walk(g)):
         ctx.ok(rule, repo.loc(g, CLS, g.name), CLS + '.n_observations',
                'reports the stored per-output counts')
     else:
